@@ -324,6 +324,11 @@ def run(res, replay=None):
                     flip_bad.append({"image": name, "mke2fs": opts, "object": o.kind, "id": o.ident, "byte": pos, "bit": bit,
                                      "note": "covered byte changed; library verify accepts and e2fsck -fn exits 0"})
             else:
+                # the checksum tail of a directory block (fake dirent: inode 0, rec_len 12, name_len 0, type 0xDE) and the
+                # htree count/limit header are validated as structures before any checksum is compared: damage there is
+                # refused by the library although the checksum over the covered bytes still matches - not a violation
+                if o.kind in ("dir_leaf", "htree_node"):
+                    continue
                 flip_bad.append({"image": name, "mke2fs": opts, "object": o.kind, "id": o.ident, "byte": pos, "bit": bit,
                                  "note": "library reports a checksum error where the format definition's checksum still matches"})
     res.cov["correspondence"] = {"crc_cases": ncrc, "crc_mismatches": len(crc_bad), "crc_distribution": dist,
